@@ -306,6 +306,7 @@ def run(ctx, prog, res):
     rule_r12(ctx, prog, res)
     rule_r13(prog, res)
     rule_r14(ctx, prog, res)
+    rule_r15(ctx, prog, res)
 
 
 def _or_roots(f, op, names, depth=0):
@@ -669,3 +670,36 @@ def rule_r14(ctx, prog, res):
         msg = "`week %02d-%02d%s` on %04d-%02d-%02d (ISO week %d): the filter says %s, the documented reading says %s" % (s, e, "/%d" % k if k != 1 else "", *date, w, got, want)
     r14.check(bad is None, {"week_ranges": len(list(weeks)) ** 2, "steps": list(steps), "days": len(days), "iso_weeks_covered": len(seen_weeks), "evaluations": n}, "C01.R14:week", msg, lib.where_of(filt))
     r14.check(len(seen_weeks) == 53, {"iso_weeks_covered": len(seen_weeks)}, "C01.R14:FLOOR", "FLOOR: the evaluated days cover %d ISO weeks, expected all 53" % len(seen_weeks))
+
+
+def rule_r15(ctx, prog, res):
+    r15 = res.rule("C01.R15", "Easter: utils::dates::easter(year) is Gregorian Easter Sunday for every supported year - the function is extracted per path from MIR (peval) and evaluated for every year 1900..=9999 (quick tier: 1900..=2400 and every 37th year after) against an independent formulation (Oudin's algorithm), and the result is a Sunday between Mar 22 and Apr 25")
+    import peval
+    fs = [f for k, f in prog.fns.items() if k.endswith("utils::dates::easter")]
+    if len(fs) != 1:
+        r15.anchor_missing("utils::dates::easter")
+        return
+    ev = peval.Evaluator(prog)
+    thorough = ctx.tier == "thorough"
+    years = list(range(1900, 10000)) if thorough else list(range(1900, 2401)) + list(range(2401, 10000, 37)) + [9999]
+    bad = None
+    try:
+        for y in years:
+            got = ev.run(fs[0], [y])
+            g = y % 19
+            c = y // 100
+            h = (c - c // 4 - (8 * c + 13) // 25 + 19 * g + 15) % 30
+            i = h - (h // 28) * (1 - (29 // (h + 1)) * ((21 - g) // 11))
+            j = (y + y // 4 + i + 2 - c + c // 4) % 7
+            l = i - j
+            month = 3 + (l + 40) // 44
+            day = l + 28 - 31 * (month // 4)
+            want = (y, month, day)
+            gd = got[1] if got is not None else None
+            if (gd != want or peval.weekday(want) != 6 or not ((3, 22) <= want[1:] <= (4, 25))) and bad is None:
+                bad = (y, gd, want)
+    except peval.Unmodelled as ex:
+        r15.fail("C01.R15:unmodelled", "easter cannot be evaluated from its MIR any more (%s): not decided, failing closed" % ex, lib.where_of(fs[0]))
+        return
+    r15.check(bad is None, {"fn": "easter", "years": len(years)}, "C01.R15:easter", "" if bad is None else "easter(%d) = %r, Easter Sunday is %04d-%02d-%02d" % (bad[0], bad[1], *bad[2]), lib.where_of(fs[0]))
+    r15.floor(1)
